@@ -60,7 +60,8 @@ Proof.
   unfold close_cont, cont_off_events. destruct (cont_plugins s); [left | right]; destruct s; reflexivity.
 Qed.
 
-Ltac cc_cases s := let E := fresh "Ecc" in destruct (close_cont_eq (release s)) as [E|E]; rewrite E; clear E.
+Ltac cc_cases s := let E := fresh "Ecc" in
+  match goal with |- context [close_cont ?x] => destruct (close_cont_eq x) as [E|E]; rewrite E; clear E end.
 
 (** ---- per-task predicates ---- *)
 Definition TQ (Q : call -> pc -> Prop) (ts : ttab) : Prop :=
@@ -783,8 +784,25 @@ Definition noret (new : list event) : Prop := forall t c r, ~ In (EvRet t c r) n
 
 Definition Quiet (s s' : state) : Prop := exists new, trace s' = new ++ trace s /\ noret new.
 
+(** what the close that does the work appends last (newest first): the item of
+    `continuous` is closed, before it possibly one `False`, before that the broker is
+    closed ONCE MORE -- atomically with the return *)
+Definition close_shape (new : list event) : Prop :=
+  exists coff mid, (coff = [] \/ coff = [EvPub (PCont false)]) /\
+                   new = EvPub PEndCont :: coff ++ EvPub PEndAll :: mid.
+
+Lemma close_shape0 mid : close_shape (EvPub PEndCont :: EvPub PEndAll :: mid).
+Proof. exists [], mid. auto. Qed.
+Lemma close_shape1 mid : close_shape (EvPub PEndCont :: EvPub (PCont false) :: EvPub PEndAll :: mid).
+Proof. exists [EvPub (PCont false)], mid. auto. Qed.
+Lemma close_shape_app new n1 : close_shape new -> close_shape (new ++ n1).
+Proof.
+  intros (coff & mid & Hc & ->). exists coff, (mid ++ n1). split; auto.
+  simpl. rewrite <- app_assoc. reflexivity.
+Qed.
+
 Definition RetsClose (s s' : state) (t : nat) : Prop :=
-  exists new, trace s' = EvRet t CClose ROk :: new ++ trace s /\ noret new /\
+  exists new, trace s' = EvRet t CClose ROk :: new ++ trace s /\ noret new /\ close_shape new /\
     st_fsm s' = Closed /\ cont_closed s' = true /\
     In (EvPub PEndAll) (trace s') /\ In (EvPub PEndCont) (trace s').
 
@@ -810,7 +828,9 @@ Proof.
   intros HQ [H | [(Hc & new & E & Hn & Hrest) | (Hc & r & new & E & Hn)]].
   - left. eapply Quiet_trans; eauto.
   - right. left. split; auto. destruct HQ as (n1 & E1 & H1). exists (new ++ n1).
-    split; [|split; auto]. + rewrite E, E1, app_assoc. reflexivity. + apply noret_app; auto.
+    destruct Hrest as (Hsh & Hrest).
+    split; [|split; [|split; auto]]. + rewrite E, E1, app_assoc. reflexivity. + apply noret_app; auto.
+    + apply close_shape_app; auto.
   - right. right. split; auto. destruct HQ as (n1 & E1 & H1). exists r, (new ++ n1).
     split. + rewrite E, E1, app_assoc. reflexivity. + apply noret_app; auto.
 Qed.
@@ -846,7 +866,7 @@ Lemma SO_close_trigger s t :
 Proof.
   intros Hin. unfold close_trigger. destruct (st_fsm s) eqn:Efs; try (left; quiet_tac; fail).
   - destruct (runt s); left; quiet_tac.
-  - right. left. split; auto. cc_cases s; (unfold RetsClose; ext_tac; fsimpl; repeat split; simpl; auto 8).
+  - right. left. split; auto. cc_cases s; (unfold RetsClose; ext_tac; fsimpl; repeat split; simpl; auto 8 using close_shape0, close_shape1).
 Qed.
 
 Lemma SO_enter_close s t :
@@ -984,7 +1004,7 @@ Proof.
   - (* C_G4 *)
     destruct c; simpl in Hc; try discriminate. right. left. split; auto.
     cc_cases s; (unfold RetsClose; ext_tac; fsimpl;
-                 destruct (st_fsm s); try discriminate; repeat split; simpl; auto 8).
+                 destruct (st_fsm s); try discriminate; repeat split; simpl; auto 8 using close_shape0, close_shape1).
   - (* P_WaitRunFinished *)
     destruct (run_finished s) as [[|]|]; try (left; apply Quiet_refl; reflexivity).
     destruct c; simpl in Hc; try discriminate; right; right; (split; [discriminate|]); eexists; ext_tac.
@@ -1061,7 +1081,7 @@ Qed.
 
 Lemma RetsClose_down s s' t : FI s' -> RetsClose s s' t -> closed_down s'.
 Proof.
-  intros HF (new & E & Hn & Hc & Hcc & Hi1 & Hi2).
+  intros HF (new & E & Hn & _ & Hc & Hcc & Hi1 & Hi2).
   destruct (closed_scal _ HF Hc) as (Ha & Hp & Hr). repeat split; auto.
 Qed.
 
@@ -1846,9 +1866,10 @@ Definition HasC (ts : ttab) (t : nat) : Prop := exists p, find_task ts t = Some 
 
 Lemma RetsClose_pre s s1 s' t : Quiet s s1 -> RetsClose s1 s' t -> RetsClose s s' t.
 Proof.
-  intros (n1 & E1 & H1) (new & E & Hn & Hrest). exists (new ++ n1). split; [|split; auto].
+  intros (n1 & E1 & H1) (new & E & Hn & Hsh & Hrest). exists (new ++ n1). split; [|split; [|split; auto]].
   - rewrite E, E1, app_assoc. reflexivity.
   - apply noret_app; auto.
+  - apply close_shape_app; auto.
 Qed.
 
 Ltac hasc := left; eexists; fsimpl; apply find_put_eq.
@@ -1859,7 +1880,7 @@ Lemma own_close_trigger s t :
 Proof.
   intros Hin. unfold close_trigger, close_enter_closed. destruct (st_fsm s) eqn:Efs; try hasc.
   - destruct (runt s); hasc.
-  - right. cc_cases s; (unfold RetsClose; ext_tac; fsimpl; repeat split; simpl; auto 8).
+  - right. cc_cases s; (unfold RetsClose; ext_tac; fsimpl; repeat split; simpl; auto 8 using close_shape0, close_shape1).
 Qed.
 
 Lemma own_enter_close s t :
@@ -1901,7 +1922,7 @@ Proof.
   - (* C_WaitRunTask *) unfold close_enter_closed. destruct (runt s); auto. hasc.
   - (* C_G4 *) right. simpl in Hok.
     cc_cases s; (unfold RetsClose; ext_tac; fsimpl;
-                 destruct (st_fsm s); try discriminate; repeat split; simpl; auto 8).
+                 destruct (st_fsm s); try discriminate; repeat split; simpl; auto 8 using close_shape0, close_shape1).
 Qed.
 
 Lemma close_task_step s l t :
@@ -2002,4 +2023,59 @@ Proof.
     exists (EvRet t CClose ROk :: new ++ n0). split.
     + rewrite E, E0. simpl. rewrite app_assoc. reflexivity.
     + left. reflexivity.
+Qed.
+
+(** ---- the broker is closed once more, atomically with the return ---- *)
+Lemma close_returns_RC s l t r :
+  LkS s -> FI s -> CI s -> In (EvRet t CClose r) (appended s (step s l)) ->
+  (l = Call t CClose /\ nl_closed s = true) \/ RetsClose s (step s l) t.
+Proof.
+  intros HL HF HC Hin. destruct l as [t0 c | t0 | | o]; simpl in *.
+  - destruct (find_task (tasks s) t0) eqn:Ef.
+    + exfalso. unfold do_call in Hin. rewrite Ef in Hin.
+      eapply Quiet_no_ret; [|exact Hin]. apply Quiet_refl. reflexivity.
+    + destruct (SO_do_call s t0 c HF HC Ef) as [(-> & Hnc & Heq) | (Hnc & HS)].
+      * left. rewrite Heq in Hin.
+        rewrite (appended_ext s _ [EvRet t0 CClose ROk; EvCall t0 CClose]) in Hin by reflexivity.
+        simpl in Hin. destruct Hin as [Hin | [Hin | []]]; [discriminate|]. inversion Hin; subst. auto.
+      * destruct (StepOK_ret _ _ _ _ _ _ HS Hin) as (-> & -> & -> & HR). auto.
+  - destruct (find_task (tasks s) t0) as [[c p]|] eqn:Ef.
+    + destruct (StepOK_ret _ _ _ _ _ _ (SO_do_step s t0 c p HL HF HC Ef) Hin) as (-> & -> & -> & HR). auto.
+    + exfalso. unfold do_step in Hin. rewrite Ef in Hin.
+      eapply Quiet_no_ret; [|exact Hin]. apply Quiet_refl. reflexivity.
+  - exfalso. eapply Quiet_no_ret; [|exact Hin]. apply Quiet_step_run.
+  - exfalso. eapply Quiet_no_ret; [|exact Hin]. apply Quiet_child_exit.
+Qed.
+
+(** the close that does the work (issued with `_closed` false): what its last step appends *)
+Theorem close_return_shape : forall stmt start th md ls l t r,
+  let s := run_labels (init_state stmt start th md) ls in
+  In (EvRet t CClose r) (appended s (step s l)) ->
+  nl_closed s = false \/ l = Step t ->
+  exists coff mid, (coff = [] \/ coff = [EvPub (PCont false)]) /\
+    trace (step s l) =
+    EvRet t CClose ROk :: EvPub PEndCont :: coff ++ EvPub PEndAll :: mid ++ trace s.
+Proof.
+  intros stmt start th md ls l t r s Hin Hw. destruct (all_inv stmt start th md ls) as (HL & HF & HC).
+  destruct (close_returns_RC s l t r HL HF HC Hin) as [(-> & Hnc) | HR].
+  - destruct Hw as [Hw | Hw]; [fold s in Hnc; congruence | discriminate].
+  - destruct HR as (new & E & _ & (coff & mid & Hc & ->) & _). exists coff, mid. split; auto.
+    rewrite E. simpl. rewrite <- app_assoc. reflexivity.
+Qed.
+
+(** a subscription is a point of the history: the trace prefix [pre] at which it was
+    handed out.  Whatever that point, up to and including the state the returning step
+    starts from, the broker is closed after it and before the return *)
+Theorem subscriptions_ended : forall stmt start th md ls l t r,
+  let s := run_labels (init_state stmt start th md) ls in
+  In (EvRet t CClose r) (appended s (step s l)) ->
+  nl_closed s = false \/ l = Step t ->
+  forall older pre, trace s = older ++ pre ->
+  exists post, trace (step s l) = EvRet t CClose ROk :: post ++ pre /\ In (EvPub PEndAll) post.
+Proof.
+  intros stmt start th md ls l t r s Hin Hw older pre Eo.
+  destruct (close_return_shape stmt start th md ls l t r Hin Hw) as (coff & mid & Hc & E).
+  fold s in E. exists (EvPub PEndCont :: coff ++ EvPub PEndAll :: mid ++ older). split.
+  - rewrite E, Eo. simpl. f_equal. f_equal. rewrite <- !app_assoc. simpl. rewrite <- app_assoc. reflexivity.
+  - right. apply in_or_app. right. left. reflexivity.
 Qed.
